@@ -336,6 +336,7 @@ def r20d(chk, rid='R20.d'):
 
 def r20f(chk, rid='R20.f'):
     chk.rule(rid, 'the meta sniffer sees the whole document, decided by evaluation: getMetaInfo is evaluated on its syntax tree with a model parser that finds the Content-Type meta element wherever it stands in what it is fed: for a declaration near the start, in the middle and at the very end of a long document the media type and the lower-cased charset are returned; without one, (None, None)')
+    chk.assume('R20.f: the HTML parser is a model that finds the Content-Type meta element wherever it stands in the text it is fed and refuses bytes like html.parser does')
     from email.message import Message
 
     from sa.absint import Evaluator, Raised, Record
